@@ -1,10 +1,123 @@
 (* C05 - event loop: dispatch order, progress, blocking time, status propagation.
-   Statements only; proofs are in Events/EventsRun5.v (model) and Events/EventsSpec5*.v (spec). *)
+   Statements only; proofs are in Events/EventsRun5.v, EventsRun5Frame.v (model), Events/EventsSpec5*.v
+   (spec) and Events/EventsC05.v (assembly).
+
+   runs_to5 p xs pl cl fuel tr : the model of events/events*.c (EventsModel.v, constants regenerated
+   from the C text in Gen/Repo_events.v) emits the trace tr for the program p (what every callback
+   does at each of its invocations: registrations, cancellations, resets, interrupt requests, its
+   result), the external call sequence xs (the same calls, events_run, events_spin), the poll
+   answers pl (ready sets with ERR/HUP, EINTR with and without an interrupt request) and the clock
+   readings cl.  Hypotheses (runs_to5): timer timeouts and clock readings are normalised timevals
+   (tv_usec < 1000000), descriptors are C ints (fd < 2^31), and the clock readings do not decrease
+   (monoclock_get) - the last one is what makes "reset only moves a deadline later" true, which
+   timerqueue_increase relies on.  The theorems hold for every fuel; when the fuel is too small the
+   model returns OutOfFuel and there is no trace (Events/EventsExamples5.v shows two instances that
+   return traces in which all clauses are exercised).
+
+   The logical clauses (choice_priority, immediate_order, timer_order, progress_immediate,
+   blocking_bound, later_polls, wake_runs, status_returned, stops_dispatch) are defined over traces
+   in Events/EventsSpec.v, Part 3b, independently of the model; live_imm / live_tmr / deadline /
+   reg_before / is_call / intr_pending / last_rc / min_deadline / timeout_ok are defined there too. *)
 From Coq Require Import NArith ZArith List.
-From LCP Require Import Base.CheckedMem Events.EventsTrace Events.EventsSpec Events.EventsModel Events.EventsInv Events.EventsRun5 Events.EventsExamples5.
+From LCP Require Import Base.CheckedMem Events.EventsTrace Events.EventsSpec Events.EventsModel Events.EventsNetInv Events.EventsSpecProofs Events.EventsInv Events.EventsRun5 Events.EventsRun5Frame Events.EventsC05 Events.EventsExamples5.
 Import ListNotations.
 
+(* the inductive invariant (Appendix B: EvInv with I1, T1-T4, N1-N7) in its consequence form: the
+   specification's checker, with every clause switched on, accepts every trace of the model *)
 Theorem C05_model_traces_accepted :
   forall p xs pl cl fuel tr, runs_to5 p xs pl cl fuel tr -> check_c05 tr = true.
-Proof. exact model_check_c05. Qed.
+Proof. exact runs_to5_accepted. Qed.
 Print Assumptions C05_model_traces_accepted.
+
+(* the checker is sound for the logical statement of C05 (used when it is run on the trace of the
+   implementation, together with check_c04) *)
+Theorem C05_check_sound : forall t, check_c04 t = true -> check_c05 t = true -> C05_holds t.
+Proof. exact check_c05_sound. Qed.
+Print Assumptions C05_check_sound.
+
+(* (a) whenever a callback starts: a descriptor or timer callback only when no immediate event is
+   pending; a timer callback only directly after a zero-timeout poll that made nothing ready *)
+Theorem C05_choice_priority :
+  forall p xs pl cl fuel tr, runs_to5 p xs pl cl fuel tr -> choice_priority tr.
+Proof. exact runs_to5_choice. Qed.
+Print Assumptions C05_choice_priority.
+
+(* (b) the immediate that runs has the lowest priority value among the pending ones and was
+   registered before every other pending one with that value *)
+Theorem C05_immediate_order :
+  forall p xs pl cl fuel tr, runs_to5 p xs pl cl fuel tr -> immediate_order tr.
+Proof. exact runs_to5_imm_order. Qed.
+Print Assumptions C05_immediate_order.
+
+(* (b) the timer that runs has the earliest deadline (clock at registration or latest reset +
+   timeout) among the registered timers; ties in any order *)
+Theorem C05_timer_order :
+  forall p xs pl cl fuel tr, runs_to5 p xs pl cl fuel tr -> timer_order tr.
+Proof. exact runs_to5_timer_order. Qed.
+Print Assumptions C05_timer_order.
+
+(* (c) events_run called with an immediate event pending runs at least one callback and never
+   polls *)
+Theorem C05_progress_immediate :
+  forall p xs pl cl fuel tr, runs_to5 p xs pl cl fuel tr -> progress_immediate tr.
+Proof. exact runs_to5_progress. Qed.
+Print Assumptions C05_progress_immediate.
+
+(* (d) the first poll of events_run: timeout -1 only when no timer is registered; otherwise the
+   distance from the clock reading taken just before it to the earliest deadline, rounded up to a
+   millisecond - exactly, unless the distance is INT_MAX / 1000 seconds or more, and then not
+   beyond it and not negative *)
+Theorem C05_blocking_bound :
+  forall p xs pl cl fuel tr, runs_to5 p xs pl cl fuel tr -> blocking_bound tr.
+Proof. exact runs_to5_blocking. Qed.
+Print Assumptions C05_blocking_bound.
+
+(* (d) every later poll of the same events_run has timeout 0, except the repetition of a poll
+   that a signal interrupted *)
+Theorem C05_later_polls :
+  forall p xs pl cl fuel tr, runs_to5 p xs pl cl fuel tr -> later_polls tr.
+Proof. exact runs_to5_later_polls. Qed.
+Print Assumptions C05_later_polls.
+
+(* (d) the conversion in events_network_select by itself, for every normalised distance (this is
+   where `tv_sec >= INT_MAX / 1000`, `(tv_usec + 999) / 1000` and the clamp value enter) *)
+Theorem C05_select_timeout_bound :
+  forall dist, tv_norm dist = true -> timeout_ok (us dist) (sel_timeout (Some dist)) = true.
+Proof. exact select_timeout_bound. Qed.
+Print Assumptions C05_select_timeout_bound.
+
+(* (c, d) an events_run that returns without having run a callback: no immediate was pending at
+   its start and - unless an interrupt was requested - none of its polls reported anything and
+   its latest clock reading is before the earliest deadline (or there is no timer).  Read the
+   other way: something runnable at the start, a descriptor reported ready or an expired timer
+   make it run a callback before it returns. *)
+Theorem C05_wake_runs :
+  forall p xs pl cl fuel tr, runs_to5 p xs pl cl fuel tr -> wake_runs tr.
+Proof. exact runs_to5_wake. Qed.
+Print Assumptions C05_wake_runs.
+
+(* (e) events_run and events_spin return the result of the latest callback that returned (0 when
+   none ran) *)
+Theorem C05_status_returned :
+  forall p xs pl cl fuel tr, runs_to5 p xs pl cl fuel tr -> status_returned tr.
+Proof. exact runs_to5_status. Qed.
+Print Assumptions C05_status_returned.
+
+(* (e) after a callback returned non-zero, or returned while an interrupt request was pending, no
+   further callback starts in that call of events_run / events_spin (so with the theorem above:
+   the first non-zero result is returned unchanged; an interrupt gives the result of the current
+   callback, 0 if it returned 0) *)
+Theorem C05_stops_dispatch :
+  forall p xs pl cl fuel tr, runs_to5 p xs pl cl fuel tr -> stops_dispatch tr.
+Proof. exact runs_to5_stops. Qed.
+Print Assumptions C05_stops_dispatch.
+
+(* (e) events not yet run stay registered: in the state s the model ends in, every registration
+   that is live in the trace (registered, neither cancelled nor invoked) is held by the library -
+   in the immediate queue of its priority, in its descriptor's reader / writer field, or in the
+   timer heap with its timeout *)
+Theorem C05_pending_stay_registered :
+  forall p xs pl cl fuel s, ends_in p xs pl cl fuel s ->
+  forall r k, live_in (rev (s_tr s)) r -> kind_of (rev (s_tr s)) r = Some k -> registered_in s r k.
+Proof. exact ends_in_registered. Qed.
+Print Assumptions C05_pending_stay_registered.
